@@ -14,6 +14,7 @@ import (
 	"sort"
 	"strings"
 	"sync"
+	"sync/atomic"
 	"time"
 )
 
@@ -202,16 +203,30 @@ func runC01(args []string) error {
 	}()
 	tY0 := time.Now()
 	durs := make([]time.Duration, len(valid))
+	// a change that makes yaegi loop on common programs must not make the check take hours: after a
+	// dozen time-outs the remaining programs get a short time limit
+	perProg := 8 * time.Second
+	if *tier == "thorough" {
+		perProg = 20 * time.Second
+	}
+	var nTimeouts int32
 	parallelMap(len(valid), 12, func(i int) {
 		t := time.Now()
-		valid[i].Impl = c1RunYaegiChild(valid[i].Src, 20*time.Second)
+		lim := perProg
+		if atomic.LoadInt32(&nTimeouts) > 12 {
+			lim = 1500 * time.Millisecond
+		}
+		valid[i].Impl = c1RunYaegiChild(valid[i].Src, lim)
+		if valid[i].Impl.End == "timeout" {
+			atomic.AddInt32(&nTimeouts, 1)
+		}
 		durs[i] = time.Since(t)
 	})
 	tYaegi := time.Since(tY0)
 	wg.Wait()
 	// a timeout under load is re-examined alone before it counts
 	for i, c := range valid {
-		if c.Impl.End == "timeout" {
+		if c.Impl.End == "timeout" && nTimeouts <= 4 {
 			c.Impl = c1RunYaegiChild(c.Src, 40*time.Second)
 			sm.count("yaegi-timeout-rerun")
 		}
@@ -251,6 +266,11 @@ func runC01(args []string) error {
 			// the toolchain rejected what go/types accepted: generator defect, not a finding
 			sm.count("ref-compile-error")
 			sm.Notes = append(sm.Notes, "toolchain rejected "+c.Name+": "+c.Ref.End)
+			continue
+		}
+		if c.Ref.End == "timeout" {
+			// the compiled program does not terminate in time: a defect of the generator's cost bound, not a finding
+			sm.count("ref-timeout")
 			continue
 		}
 		if c1Equal(c.Impl, c.Ref) {
